@@ -34,6 +34,10 @@ def main():
         except Exception:
             meta = {}
     crate = meta.get("demo_crate", crate)
+    if "demo_crate" not in meta and os.path.exists(os.path.join(sd, "DEMO.md")):
+        mm = re.search(r"-p\s+(multiboot2[-\w]*)", open(os.path.join(sd, "DEMO.md")).read())
+        if mm:
+            crate = mm.group(1)
     scratch = tempfile.mkdtemp(prefix="mb2seed.")
     out = {"seed": sd, "crate": crate}
     try:
